@@ -1,0 +1,24 @@
+//go:build verif
+
+// Contracts for the deductive verifier in /verif (govc): trusted summaries of small x/evm/types helpers the ante
+// handlers (app/antedl) call. Comment-only.
+package types
+
+//@ import big "math/big"
+//@ import common "github.com/ethereum/go-ethereum/common"
+
+// Eip155ChainId is a big.Int by value: one mathematical number.
+//@ opaque type Eip155ChainId
+//@ ghost func chainIdVal(id Eip155ChainId) int
+//@ func (m Eip155ChainId) BigInt() *big.Int
+//@   assumed
+//@   modifies nothing
+//@   ensures result != nil && fresh(result) && bigval[result] == chainIdVal(m)
+//@   panics never
+
+// utils.go IsEmptyCodeHash: zero hash or keccak256(nil) (EmptyCodeHash); isEmptyCodeHash: prelude/31_geth_vm.spec
+//@ func IsEmptyCodeHash(codeHash common.Hash) bool
+//@   assumed
+//@   modifies nothing
+//@   ensures result == isEmptyCodeHash(codeHash)
+//@   panics never
